@@ -260,6 +260,7 @@ def c06(run):
     out = []
     steps = segments(run)
     hib_on = run.spec["hibernation"]
+    fresh = set()  # demes created by the sprouting round of the previous step
     for k, s in enumerate(steps):
         pre = {d["id"]: d for d in run.snaps[k]["demes"]}
         post = {d["id"]: d for d in run.snaps[k + 1]["demes"]} if k + 1 < len(run.snaps) else None
@@ -270,6 +271,10 @@ def c06(run):
             b = post[did]
             should = a["active"] and not (hib_on and a["hib"])
             adv = b["metaepochs"] - a["metaepochs"]
+            if did in fresh and a["active"] and adv != 1:
+                # "a freshly sprouted deme first runs in the following metaepoch" — whatever its flags say
+                out.append(V("C06/fresh-deme-did-not-run-in-the-following-metaepoch", f"metaepoch {s['n']}: deme {did}, sprouted in the previous metaepoch, advanced by {adv} metaepochs (hibernating flag at birth: {a['hib']})"))
+                continue
             if should and adv != 1:
                 out.append(V("C06/active-deme-did-not-advance-by-one", f"metaepoch {s['n']}: active deme {did} advanced by {adv} metaepochs"))
             if not should and (adv != 0 or b["n_evals"] != a["n_evals"] or b["ngens"] != a["ngens"] or (a.get("hist") is not None and b.get("hist") is not None and repr(a["hist"]) != repr(b["hist"]))):  # repr: NaN-safe
@@ -298,6 +303,7 @@ def c06(run):
                 if not r["active"] and not reasons and cls in ("EADeme", "DEDeme", "SHADEDeme", "LHSDeme", "SobolDeme", "CMADeme", "UserEADeme", "UserDEDeme"):
                     if not (cls == "CMADeme" and r.get("cma_stop") is None):
                         out.append(V("C06/stopped-without-reason", f"metaepoch {s['n']}: deme {did} ({cls}) became inactive although neither its local nor the global stop condition held nor its engine stopped"))
+        fresh = {did for did in post if did not in pre}
         for did, b in post.items():
             if did not in pre:
                 if b["started_at"] != s["n"] or b["metaepochs"] != 0:
